@@ -164,4 +164,15 @@ def math_condition(cond_str, idx):
                         names.add(n["e"]["v"])
                     if n.get("k") == "lit" and n.get("t") == "str":
                         names.add(n["v"])
+                    # `TABLE.contains(&name)`: the literals of the constant array
+                    if n.get("k") == "mcall" and n["m"] == "contains" and sir.strip_ref(n["recv"]).get("k") == "path" and hasattr(idx, "const"):
+                        c = idx.const(sir.strip_ref(n["recv"])["segs"][-1])
+                        ce = (c or {}).get("e") or {}
+                        if ce.get("k") == "ref":
+                            ce = ce["e"]
+                        if ce.get("k") == "array":
+                            for x in ce["elems"]:
+                                x = sir.strip_ref(x)
+                                if x.get("k") == "lit" and x.get("t") == "str":
+                                    names.add(x["v"])
     return names
